@@ -144,6 +144,9 @@ func genC04(rng *rand.Rand, n int) SrvCase {
 	c.Cfg.AttrTTL = []time.Duration{time.Nanosecond, 5 * time.Second, 20 * time.Millisecond}[rng.Intn(3)]
 	c.Cfg.DirCache = rng.Intn(2) == 0
 	c.Cfg.Neg = rng.Intn(2) == 0
+	// one history in three: the client keeps the handles it has when the object at their path is replaced (the
+	// server's handles name paths): whatever such a request does, it does to the object now at that path
+	c.Cfg.KeepStale = rng.Intn(3) == 0
 	return c
 }
 
